@@ -743,3 +743,119 @@ Example pkg_ok_nonvacuous :
 Proof.
   exists (mkPat ["c"]%char ["x"]%char false). split; vm_compute; reflexivity.
 Qed.
+
+(* ------------------------------------------------------------------ pattern lists
+   ParsePatternsOrMatchAll, GetMatchAllTargetPattern, TargetPatternFromLabel (added session 4) *)
+
+Theorem match_all_matches l : matches match_all_pattern l = true.
+Proof. reflexivity. Qed.
+
+Theorem matches_any_iff ps l :
+  matches_any ps l = true <-> exists p, In p ps /\ matches p l = true.
+Proof. unfold matches_any. apply existsb_exists. Qed.
+
+Theorem parse_patterns_pointwise cur ss ps :
+  parse_patterns cur ss = Some ps <->
+  Forall2 (fun s p => parse_pattern cur s = Some p) ss ps.
+Proof.
+  revert ps; induction ss as [|s ss IH]; intros ps; cbn [parse_patterns].
+  - split; intro H.
+    + injection H as <-. constructor.
+    + inversion H. reflexivity.
+  - destruct (parse_pattern cur s) as [p|] eqn:Ep.
+    + destruct (parse_patterns cur ss) as [ps'|] eqn:Eps.
+      * split; intro H.
+        -- injection H as <-. constructor; [exact Ep | apply IH; reflexivity].
+        -- inversion H as [|s0 p0 ss0 ps0 Hp Hrest]; subst.
+           apply IH in Hrest. rewrite Ep in Hp. congruence.
+      * split; intro H; [discriminate|].
+        inversion H as [|s0 p0 ss0 ps0 Hp Hrest]; subst.
+        apply IH in Hrest. discriminate.
+    + split; intro H; [discriminate|].
+      inversion H as [|s0 p0 ss0 ps0 Hp Hrest]; subst. rewrite Ep in Hp. discriminate.
+Qed.
+
+Theorem parse_patterns_rejects cur ss :
+  parse_patterns cur ss = None <-> exists s, In s ss /\ parse_pattern cur s = None.
+Proof.
+  induction ss as [|s ss IH]; cbn [parse_patterns].
+  - split; [discriminate | intros [s [[] _]]].
+  - destruct (parse_pattern cur s) as [p|] eqn:Ep.
+    + destruct (parse_patterns cur ss) as [ps'|] eqn:Eps.
+      * split; [discriminate|]. intros [s' [[<-|Hin] Hs']]; [congruence|].
+        destruct IH as [_ IH2].
+        assert (Hx : Some ps' = None) by (apply IH2; exists s'; split; assumption).
+        discriminate.
+      * split; [|reflexivity]. intros _.
+        destruct IH as [IH1 _]. destruct (IH1 eq_refl) as [s' [Hin Hs']].
+        exists s'; split; [right; exact Hin | exact Hs'].
+    + split; [|reflexivity]. intros _. exists s; split; [left; reflexivity | exact Ep].
+Qed.
+
+Theorem patterns_or_all_empty cur :
+  parse_patterns_or_all cur [] = Some [match_all_pattern] /\
+  forall l, matches_any [match_all_pattern] l = true.
+Proof. split; [reflexivity | intro l; reflexivity]. Qed.
+
+Theorem patterns_or_all_nonempty cur ss :
+  ss <> [] -> parse_patterns_or_all cur ss = parse_patterns cur ss.
+Proof.
+  intro Hne. unfold parse_patterns_or_all.
+  destruct (parse_patterns cur ss) as [[|p ps]|] eqn:E; try reflexivity.
+  apply parse_patterns_pointwise in E. inversion E; subst. contradiction.
+Qed.
+
+(* the selection a command line denotes: a label is selected iff some argument, parsed on its
+   own, matches it; no arguments select every label *)
+Theorem patterns_or_all_selects cur ss ps l :
+  parse_patterns_or_all cur ss = Some ps ->
+  (matches_any ps l = true <->
+   ss = [] \/ exists s p, In s ss /\ parse_pattern cur s = Some p /\ matches p l = true).
+Proof.
+  intro H. destruct ss as [|s0 ss'].
+  - destruct (patterns_or_all_empty cur) as [E Hall]. rewrite E in H. injection H as <-.
+    split; [intros _; left; reflexivity | intros _; apply Hall].
+  - rewrite patterns_or_all_nonempty in H by discriminate.
+    apply parse_patterns_pointwise in H. rewrite matches_any_iff. split.
+    + intros [p [Hin Hm]]. right.
+      revert Hin. induction H as [|s p' ss1 ps1 Hp Hrest IH]; intros Hin; [destruct Hin|].
+      destruct Hin as [<-|Hin].
+      * exists s, p'. split; [left; reflexivity | split; assumption].
+      * destruct (IH Hin) as [s' [p'' [Hs [Hp' Hm']]]].
+        exists s', p''. split; [right; exact Hs | split; assumption].
+    + intros [Habs | [s [p [Hin [Hp Hm]]]]]; [discriminate|].
+      revert Hin. induction H as [|s1 p1 ss1 ps1 Hp1 Hrest IH]; intros Hin; [destruct Hin|].
+      destruct Hin as [<-|Hin].
+      * exists p1. rewrite Hp in Hp1. injection Hp1 as <-. split; [left; reflexivity | exact Hm].
+      * destruct (IH Hin) as [p' [Hin' Hm']]. exists p'. split; [right; exact Hin' | exact Hm'].
+Qed.
+
+Theorem pattern_of_label_self l : matches (pattern_of_label l) l = true.
+Proof.
+  unfold matches, pattern_of_label; cbn [prec pprefix ptarget].
+  rewrite !str_eqb_refl. rewrite Bool.orb_true_r. reflexivity.
+Qed.
+
+(* TargetPatternFromLabel selects exactly that label, for every name a label can carry
+   except the reserved word "all" (a target named all makes its pattern a package wildcard) *)
+Theorem pattern_of_label_exact l l' :
+  valid_name (lname l) = true -> lname l <> all_lit ->
+  (matches (pattern_of_label l) l' = true <-> l' = l).
+Proof.
+  intros Hv Hall. split; [|intros ->; apply pattern_of_label_self].
+  unfold matches, pattern_of_label; cbn [prec pprefix ptarget]. intro H.
+  apply Bool.andb_true_iff in H as [Hp Hn].
+  apply str_eqb_eq in Hp.
+  unfold valid_name in Hv. apply Bool.andb_true_iff in Hv as [Hv _].
+  apply Bool.andb_true_iff in Hv as [Hnn Hne].
+  apply Bool.negb_true_iff in Hnn. apply Bool.negb_true_iff in Hne.
+  rewrite Hnn, Hne in Hn. apply str_eqb_neq in Hall. rewrite Hall in Hn. cbn [orb] in Hn.
+  apply str_eqb_eq in Hn. destruct l, l'; cbn in *; subst; reflexivity.
+Qed.
+
+Theorem pattern_of_label_all_refuted :
+  exists l l', l' <> l /\ matches (pattern_of_label l) l' = true.
+Proof.
+  exists (mkLabel ["p"%char] all_lit), (mkLabel ["p"%char] ["x"%char]).
+  split; [discriminate | reflexivity].
+Qed.
